@@ -33,7 +33,7 @@ Local Open Scope Z_scope.
 Definition unixToInternal : Z := 62135596800.
 Definition internalToAbsolute : Z := 9223371966579724800.
 (** (unixToInternal + internalToAbsolute) / 86400: the absolute day number of 1970-01-01 *)
-Definition absDayOfUnixEpoch : Z := 106751991167300.
+Definition absDayOfUnixEpoch : Z := 106751991073094.
 Definition nsPerSec : Z := 1000000000.
 Definition minDuration : Z := - 2 ^ 63.
 Definition maxDuration : Z := 2 ^ 63 - 1.
